@@ -544,6 +544,45 @@ theorem vk_stable (T : Matrix Z (X ⊕ Z) ℝ) (A : Matrix X Z ℝ) (B : Matrix 
   have := unique_and_convergent F Q Szz hfix hk hc hF
   exact ⟨this.1, this.2.1⟩
 
+/-- the noise term of the covariance recursion depends on `B` only through `B Bᵀ` -/
+theorem companionG_gram (T : Matrix Z (X ⊕ Z) ℝ) (B : Matrix X X ℝ) :
+    companionG T B * (companionG T B)ᵀ = T * fromBlocks (B * Bᵀ) 0 0 0 * Tᵀ := by
+  have h : fromRows B (0 : Matrix Z X ℝ) * (fromRows B (0 : Matrix Z X ℝ))ᵀ = fromBlocks (B * Bᵀ) 0 0 0 := by
+    rw [transpose_fromRows, fromRows_mul_fromCols]; simp
+  simp only [companionG, transpose_mul]
+  rw [← h]; simp only [Matrix.mul_assoc]
+
+/-- **stationary_scales** (sibling screens: one geometry, another `r0`).  The fixed-point predicate is exactly the one of
+`vk_is_stationary` / `vk_stable`: `F Σ Fᵀ + G Gᵀ = Σ` with `F = companionF T A`, `G = companionG T B`.  If `Σ` is a fixed point
+of the covariance recursion of `(A, B)`, then `s • Σ` is a fixed point of the recursion of `(A, B')` for EVERY `B'` with
+`B' B'ᵀ = s • (B Bᵀ)` (the sibling has the same `A` and `s = (r0'/r0)^(-5/3)`).  The hypothesis `0 ≤ s` is not needed for the
+algebra and is not assumed (for `s < 0` such a `B'` exists only when `B Bᵀ = 0`). -/
+theorem stationary_scales (T : Matrix Z (X ⊕ Z) ℝ) (A : Matrix X Z ℝ) (B B' : Matrix X X ℝ) (S : Matrix Z Z ℝ) (s : ℝ)
+    (hB' : B' * B'ᵀ = s • (B * Bᵀ))
+    (hfix : companionF T A * S * (companionF T A)ᵀ + companionG T B * (companionG T B)ᵀ = S) :
+    companionF T A * (s • S) * (companionF T A)ᵀ + companionG T B' * (companionG T B')ᵀ = s • S := by
+  have hG : companionG T B' * (companionG T B')ᵀ = s • (companionG T B * (companionG T B)ᵀ) := by
+    rw [companionG_gram, companionG_gram, hB']
+    have : fromBlocks (s • (B * Bᵀ)) (0 : Matrix X Z ℝ) (0 : Matrix Z X ℝ) (0 : Matrix Z Z ℝ)
+        = s • fromBlocks (B * Bᵀ) 0 0 0 := by
+      rw [fromBlocks_smul]; simp
+    rw [this, Matrix.mul_smul, Matrix.smul_mul]
+  rw [hG, Matrix.mul_smul, Matrix.smul_mul, ← smul_add, hfix]
+
+open Filter Topology in
+/-- … and under the contraction witness of the ORIGINAL screen (the sibling has the same `A`, hence the same `F`) the scaled
+covariance is the sibling's ONLY stationary covariance and is reached from any starting covariance -/
+theorem stationary_scales_unique (T : Matrix Z (X ⊕ Z) ℝ) (A : Matrix X Z ℝ) (B B' : Matrix X X ℝ) (S : Matrix Z Z ℝ) (s : ℝ)
+    (hB' : B' * B'ᵀ = s • (B * Bᵀ))
+    (hfix : companionF T A * S * (companionF T A)ᵀ + companionG T B * (companionG T B)ᵀ = S)
+    {k : ℕ} (hk : 0 < k) {c : ℝ} (hc : c < 1) (hF : ‖companionF T A ^ k‖ ≤ c) :
+    let F := companionF T A
+    let Q' := companionG T B' * (companionG T B')ᵀ
+    (∀ S', F * S' * Fᵀ + Q' = S' → S' = s • S) ∧ ∀ P0, Tendsto (Lyapunov.iter F Fᵀ Q' P0) atTop (𝓝 (s • S)) := by
+  intro F Q'
+  have := unique_and_convergent F Q' (s • S) (stationary_scales T A B B' S s hB' hfix) hk hc hF
+  exact ⟨this.1, this.2.1⟩
+
 open Filter Topology in
 /-- the contraction hypothesis cannot be dropped: the scalar recursion `P ↦ 2·P·2` has the fixed point `0` but started from `1`
 it runs off to infinity (this is what happened to the ill-conditioned configurations of the finding `stability:vk:L0/pixel>2e4`
